@@ -53,8 +53,11 @@ def run_one(patch, tier):
             t0 = time.time()
             r = subprocess.run([os.path.join(VERIF, "bin", "check"), pid, "--tier", tier], env=env, stdout=subprocess.PIPE, stderr=subprocess.STDOUT, text=True)
             sigs = re.findall(r"signature: (.*)", r.stdout)
-            out["results"][pid] = {"exit": r.returncode, "wall_s": round(time.time() - t0), "signatures": sigs[:4],
-                                   "tail": "" if (r.returncode == 1 and sigs) else r.stdout[-700:]}
+            rc = r.returncode
+            if rc == 1 and "VIOLATION property=" not in r.stdout:
+                rc = 3          # the driver itself died (traceback): never count that as "caught"
+            out["results"][pid] = {"exit": rc, "wall_s": round(time.time() - t0), "signatures": sigs[:4],
+                                   "tail": "" if (rc == 1 and sigs) else r.stdout[-700:]}
             shutil.rmtree(tmp, ignore_errors=True)
     finally:
         subprocess.run(["git", "-C", "/repo", "worktree", "remove", "--force", wt], stdout=subprocess.DEVNULL, stderr=subprocess.DEVNULL)
